@@ -375,11 +375,17 @@ def write_evidence(prop, tier, seed, cfg, run, confirmed, inconclusive, wall, re
 def main():
     args = sys.argv[1:]
     if args and args[0] == "--replay":
-        rp = args[1]
+        rp = os.path.abspath(args[1])
         j = json.load(open(rp))
         status, detail = native_replay(os.path.join(VERIF, "out", j["property"]), j["dir"], j["entry"], rp)
         print(f"replay {j['entry']}: {status} {detail}")
-        ok = (status == "violation" and detail == "id=" + j["assert_id"]) or (j.get("kind") == "panic" and status == "panic")
+        aid = j.get("assert_id", "")
+        ok = (status == "violation" and detail == "id=" + aid) or (j.get("kind") == "panic" and status == "panic")
+        if not ok and aid:
+            # decisions that cannot be forced on compiled code: replay concretely in the interpreter
+            ensure_engine()
+            ok = engine_replay(os.path.join(VERIF, "out", j["property"]), j["dir"], j["entry"], rp, aid, j.get("kind", "assert"))
+            print(f"replay {j['entry']} in the interpreter: {'violation' if ok else 'not reproduced'}")
         if ok:
             print(f"VIOLATION property={j['property']} replay={rp}")
             sys.exit(1)
